@@ -48,13 +48,154 @@ theorem vhost_in_range (srt : List Wild → List Wild) (hs : IsSorter srt) (cfg 
 
 /-- **rule_refines**: a rule built by `NewRouteBase` matches a request exactly when all matchers of the configured
 route hold (path / prefix / regex, header conjunction, method via the request variable, variable matchers, RPC
-headers), for every regex oracle. -/
+headers), for every regex oracle and **every kind of request header map** (`req.kind`: the exact-name maps of
+xprotocol / RPC, the case-insensitive HTTP/1 and HTTP/2 maps): a configured header name is matched as the request's
+protocol matches names (`Spec.hdrValue`), whichever constructor (`CreateHTTPHeaderMatcher` for path / prefix / regex
+rules, `CreateCommonHeaderMatcher` for RPC rules — both regenerated) built the matcher. -/
 theorem rule_refines (rx : RxOracle) (req : Req) (m : MatchCfg) (rule : Rule) (h : mkRule m = .ok rule) :
     matchRule rx req rule = Spec.ruleHolds rx req m :=
   MosnVerif.Model.Route.rule_refines rx req h
 
+
+-- ---------------------------------------------------------------- header names (both constructors x every map kind)
+
+/-- **header_name_rule**: what the matchers read from the request, `headers.Get(name)` of the request's header map,
+is the documented rule `Spec.hdrValue`: the first header whose name equals the configured name — byte for byte on an
+xprotocol / RPC map, ignoring letter case on an HTTP map (HTTP/2: pseudo headers from the request line, an empty
+value counts as absent). -/
+theorem header_name_rule (req : Req) (name : Str) : req.hdr name = Spec.hdrValue req name := hdr_spec req name
+
+/-- **constructors_keep_names**: every matcher built by `CreateCommonHeaderMatcher` and by `CreateHTTPHeaderMatcher`
+(regenerated) looks up a configured name *verbatim* — neither constructor normalises it — and keeps the configured
+value; entries are kept in configuration order. -/
+theorem constructors_keep_names (hs : List HeaderCfg) :
+    (∀ kv ∈ Gen.Route.createCommonHeaderMatcher hs, ∃ h ∈ hs, kv.Name = h.name ∧ kv.Value.Value = h.value) ∧
+    (∀ kv ∈ (Gen.Route.createHTTPHeaderMatcher hs).headers, ∃ h ∈ hs, kv.Name = h.name ∧ kv.Value.Value = h.value) ∧
+    (Gen.Route.createCommonHeaderMatcher hs).map (·.Name) = (hs.filter (fun h => (newKV h).isSome)).map (·.name) := by
+  have key : ∀ (h : HeaderCfg) (kv : KeyValueData), newKV h = some kv → kv.Name = h.name ∧ kv.Value.Value = h.value := by
+    intro h kv hk
+    unfold newKV at hk
+    split at hk
+    · split at hk
+      · injection hk with hk; rw [← hk]; exact ⟨rfl, rfl⟩
+      · cases hk
+    · injection hk with hk; rw [← hk]; exact ⟨rfl, rfl⟩
+  refine ⟨?_, ?_, ?_⟩
+  · intro kv hkv
+    rw [gen_createCommon, List.mem_filterMap] at hkv
+    obtain ⟨h, hh, hk⟩ := hkv
+    exact ⟨h, hh, key h kv hk⟩
+  · intro kv hkv
+    rw [gen_createHttp] at hkv
+    simp only [List.mem_filterMap, List.mem_filter] at hkv
+    obtain ⟨h, ⟨hh, _⟩, hk⟩ := hkv
+    exact ⟨h, hh, key h kv hk⟩
+  · rw [gen_createCommon]
+    induction hs with
+    | nil => rfl
+    | cons h r ih =>
+      simp only [List.filterMap_cons, List.filter_cons]
+      cases hk : newKV h with
+      | none => simpa using ih
+      | some kv => simp [ih, (key h kv hk).1]
+
+/-- **rpc_matcher_refines** / **http_matcher_refines**: each constructor followed by its `Matches`, against a request
+carried by any header map: the conjunction of the configured matchers under the documented name rule (plus, for
+HTTP rules, the effective `method` matcher on the request variable). -/
+theorem rpc_matcher_refines (rx : RxOracle) (req : Req) (hs : List HeaderCfg) :
+    Gen.Route.commonMatches rx req.hdr (Gen.Route.createCommonHeaderMatcher hs) = hs.all (Spec.headerHolds rx req) :=
+  createCommon_all rx req hs
+
+theorem http_matcher_refines (rx : RxOracle) (req : Req) (hs : List HeaderCfg) :
+    Gen.Route.httpMatches rx req.var req.hdr (Gen.Route.createHTTPHeaderMatcher hs) = Spec.httpHeadersHold rx req hs :=
+  http_refines rx req hs
+
+/-- **http_names_case_insensitive**: on an HTTP request (HTTP/1 map; HTTP/2 map for regular headers) names that differ
+only in letter case read the same value — so re-casing a configured name, or the name a client sends, never changes
+which route is selected. -/
+theorem http_names_case_insensitive (req : Req) (n n' : Str) (hk : req.kind = .fold ∨ (req.kind = .h2 ∧ n.head? ≠ some ':' ∧ n'.head? ≠ some ':'))
+    (heq : lower n = lower n') : Spec.hdrValue req n = Spec.hdrValue req n' := by
+  unfold Spec.hdrValue
+  rcases hk with hk | ⟨hk, h1, h2⟩
+  · simp only [hk, heq]
+  · simp only [hk, h1, h2, if_false, heq]
+
+/-- **rpc_names_exact**: on an xprotocol / RPC request (keys of the map are unique) a configured name reads the value
+stored under exactly that name, and nothing stored under a differently-cased name. -/
+theorem rpc_names_exact (req : Req) (hk : req.kind = .exact) (hu : (req.hdrs.map (·.1)).Nodup) (n v : Str) :
+    Spec.hdrValue req n = some v ↔ (n, v) ∈ req.hdrs := by
+  unfold Spec.hdrValue
+  simp only [hk]
+  generalize req.hdrs = l at hu
+  induction l with
+  | nil => simp
+  | cons a r ih =>
+    obtain ⟨k, w⟩ := a
+    simp only [List.map_cons, List.nodup_cons] at hu
+    simp only [List.find?_cons]
+    by_cases hkn : k = n
+    · subst hkn
+      simp only [decide_true, Option.map_some, Option.some.injEq, List.mem_cons, Prod.mk.injEq, true_and]
+      constructor
+      · intro h; exact Or.inl h.symm
+      · rintro (h | h)
+        · exact h.symm
+        · exact absurd (List.mem_map_of_mem (f := (·.1)) h) hu.1
+    · simp only [hkn, decide_false, List.mem_cons, Prod.mk.injEq]
+      rw [ih hu.2]
+      constructor
+      · intro h; exact Or.inr h
+      · rintro (⟨h, _⟩ | h)
+        · exact absurd h.symm hkn
+        · exact h
+
+/-- **no_query_matcher**: no rule `NewRouteBase` builds carries a query-parameter matcher (the field exists in
+`BaseHTTPRouteRule`, `matchRoute` consults it, no constructor sets it): query parameters never influence selection. -/
+theorem no_query_matcher (m : MatchCfg) (rule : Rule) (h : mkRule m = .ok rule) :
+    match rule with
+    | .prefix_ b _ | .path b _ | .regex b _ => b.configQueryParameters = none
+    | _ => True := by
+  unfold mkRule at h
+  split at h
+  · injection h with h; subst h; rfl
+  · split at h
+    · injection h with h; subst h; rfl
+    · split at h
+      · split at h
+        · injection h with h; subst h; rfl
+        · cases h
+      · split at h
+        · split at h
+          · injection h with h; subst h; trivial
+          · cases h
+        · split at h
+          · injection h with h; subst h; trivial
+          · injection h with h; subst h; trivial
+
+/-- selection does not depend on the query-string parser (`Req.pq`), because no query-parameter matcher exists. -/
+theorem query_parser_irrelevant (rx : RxOracle) (req : Req) (pq' : Str → List (Str × Str)) (m : MatchCfg) (rule : Rule)
+    (h : mkRule m = .ok rule) : matchRule rx { req with pq := pq' } rule = matchRule rx req rule := by
+  have hq := no_query_matcher m rule h
+  cases rule with
+  | prefix_ b p =>
+    obtain ⟨u, hm, q⟩ := b
+    simp only at hq; subst hq
+    show Gen.Route.prefixMatch rx pq' req.var req.hdr _ p = Gen.Route.prefixMatch rx req.pq req.var req.hdr _ p
+    rw [prefixMatch_eq, prefixMatch_eq]
+  | path b p =>
+    obtain ⟨u, hm, q⟩ := b
+    simp only at hq; subst hq
+    show Gen.Route.pathMatch rx pq' req.var req.hdr _ p = Gen.Route.pathMatch rx req.pq req.var req.hdr _ p
+    rw [pathMatch_eq, pathMatch_eq]
+  | regex b p =>
+    obtain ⟨u, hm, q⟩ := b
+    simp only at hq; subst hq
+    show Gen.Route.regexMatch rx pq' req.var req.hdr _ p = Gen.Route.regexMatch rx req.pq req.var req.hdr _ p
+    rw [regexMatch_eq, regexMatch_eq]
+  | _ => rfl
+
 /-- **route_first_match**: within a virtual host the selected route is the first one, in configuration order, whose
-matchers all hold. -/
+matchers all hold — for every request, i.e. every header-map kind, every multiset of carried header names. -/
 theorem route_first_match (rx : RxOracle) (req : Req) (ms : List MatchCfg) (rules : List Rule)
     (h : mkRules ms = .ok rules) (j : Nat) :
     selectRoute rx req rules = some j ↔
@@ -157,12 +298,53 @@ def exRoutes : List MatchCfg :=
 
 def exReq (method path : String) : Req :=
   { var := fun k => if k = "x-mosn-method".toList then some method.toList else if k = "x-mosn-path".toList then some path.toList else none,
-    hdr := fun _ => none, dsl := fun _ => none }
+    dsl := fun _ => none }
 
 example : ∃ rules, mkRules exRoutes = .ok rules := ⟨_, rfl⟩
 example : Spec.route (fun _ _ => false) (exReq "GET" "/a/b") exRoutes = some 0 := by decide
 example : Spec.route (fun _ _ => true) (exReq "POST" "/a/b") exRoutes = some 1 := by decide
 example : Spec.route (fun _ _ => false) (exReq "POST" "/a/b") exRoutes = some 2 := by decide
 example : Spec.route (fun _ _ => false) (exReq "POST" "/a/b") (exRoutes.take 2) = none := by decide
+
+
+-- header names: an RPC rule and an HTTP rule keyed on `Service-Name`, then a catch-all
+def exHdrRoutes : List MatchCfg :=
+  [ ⟨[], [], none, [], [⟨"Service-Name".toList, "pay".toList, false, ⟨0, false⟩⟩], []⟩,
+    ⟨"/".toList, [], none, [], [⟨"Service-Name".toList, "^p".toList, true, ⟨1, true⟩⟩], []⟩,
+    ⟨[], [], none, [], [], []⟩ ]
+
+def exHdrReq (kind : MapKind) (hdrs : List (String × String)) : Req :=
+  { var := fun k => if k = "x-mosn-path".toList then some "/x".toList else none,
+    kind := kind, hdrs := hdrs.map (fun kv => (kv.1.toList, kv.2.toList)),
+    pseudo := [(":authority".toList, "a.cc".toList), (":path".toList, "/x".toList), (":method".toList, "GET".toList)] }
+
+example : ∃ rules, mkRules exHdrRoutes = .ok rules := ⟨_, rfl⟩
+-- xprotocol / RPC map: only the exact-case key matches; the lower-cased key falls through to the catch-all
+example : Spec.route (fun _ _ => true) (exHdrReq .exact [("Service-Name", "pay")]) exHdrRoutes = some 0 := by decide
+example : Spec.route (fun _ _ => false) (exHdrReq .exact [("service-name", "pay")]) exHdrRoutes = some 2 := by decide
+example : Spec.route (fun _ _ => true) (exHdrReq .exact [("service-name", "pay"), ("Service-Name", "x")]) exHdrRoutes = some 1 := by decide
+-- HTTP maps: any case matches, the first carried header of that name counts
+example : Spec.route (fun _ _ => false) (exHdrReq .fold [("service-name", "pay")]) exHdrRoutes = some 0 := by decide
+example : Spec.route (fun _ _ => false) (exHdrReq .fold [("SERVICE-NAME", "x"), ("Service-Name", "pay")]) exHdrRoutes = some 2 := by decide
+example : Spec.route (fun _ _ => false) (exHdrReq .h2 [("service-name", "pay")]) exHdrRoutes = some 0 := by decide
+example : Spec.route (fun _ _ => false) (exHdrReq .h2 [("service-name", "")]) exHdrRoutes = some 2 := by decide
+example : Spec.hdrValue (exHdrReq .h2 []) ":authority".toList = some "a.cc".toList := by decide
+example : Spec.hdrValue (exHdrReq .fold [(":authority", "b")]) ":Authority".toList = some ['b'] := by decide
+-- hypotheses of http_names_case_insensitive / rpc_names_exact are satisfiable
+example : (exHdrReq .fold [("K", "v")]).kind = .fold ∧ lower "Service-Name".toList = lower "service-NAME".toList := by decide
+example : (((exHdrReq .exact [("K", "v"), ("k", "w")]).hdrs).map (·.1)).Nodup := by decide
+
+/-- **lowercasing_breaks_exact_maps** (why the constructors must keep names verbatim): lower-casing the configured name
+of an RPC rule changes the selected route on an xprotocol request that carries the configured name — the rule is
+skipped for the request it is written for, and taken for a request carrying the lower-cased key. -/
+theorem lowercasing_breaks_exact_maps :
+    let cfg := exHdrRoutes
+    let cfg' := exHdrRoutes.map (fun m => { m with headers := m.headers.map (fun h => { h with name := lower h.name }) })
+    Spec.route (fun _ _ => false) (exHdrReq .exact [("Service-Name", "pay")]) cfg = some 0 ∧
+    Spec.route (fun _ _ => false) (exHdrReq .exact [("Service-Name", "pay")]) cfg' = some 2 ∧
+    Spec.route (fun _ _ => false) (exHdrReq .exact [("service-name", "pay")]) cfg = some 2 ∧
+    Spec.route (fun _ _ => false) (exHdrReq .exact [("service-name", "pay")]) cfg' = some 0 ∧
+    -- ... and is invisible on an HTTP request
+    Spec.route (fun _ _ => false) (exHdrReq .fold [("Service-Name", "pay")]) cfg' = some 0 := by decide
 
 end MosnVerif.Props.C04
